@@ -15,16 +15,25 @@ from harness import util
 THEOREMS = ['C04_tref_split_invariance', 'C04_tref_split_invariance_moist', 'C04_tref_split_closed_form',
             'C04_H_is_explicit_counterpart', 'C04_lnps_invariance', 'C04_effective_pgf_invariant',
             'C04_effective_pgf_invariant_dry', 'C04_effective_pgf_cloud_defect', 'C04_column_commutes',
-            'C04_temperature_modal_invariance', 'C04_divergence_invariance', 'C04_vorticity_invariance', 'C04_hyps_satisfiable', 'C04_modal_hyps_satisfiable',
-            'C04_tref_split_cloud_refuted', 'C04_tref_split_invariance_R']
+            'C04_temperature_modal_invariance', 'C04_divergence_invariance', 'C04_vorticity_invariance',
+            'C04_temperature_modal_invariance_moist', 'C04_divergence_invariance_moist',
+            'C04_vorticity_invariance_moist', 'C04_unique_branch_zero', 'C04_unique_branch_free',
+            'C04_unique_test_iff', 'C04_no_vertical_advection_closed_form',
+            'C04_no_vertical_advection_uniform_invariance', 'C04_hyps_satisfiable', 'C04_modal_hyps_satisfiable',
+            'C04_modal_moist_hyps_satisfiable', 'C04_no_vertical_advection_refuted', 'C04_tref_split_cloud_refuted',
+            'C04_tref_split_invariance_R']
 LEVEL = 'proof'
 LEVEL_TEXT = ('machine-checked theorems (Coq) for every field, every layer count K>=1, all level sets, all column data and '
               'any two reference profiles with the same absolute temperature: the nodal temperature tendency '
               '(vertical advection + adiabatic term, dry and moist) plus the implicit H.divergence term, and the '
               'log-surface-pressure tendency, do not depend on the profile (pure algebra: H is pinned entry by entry '
-              'against sigma_dot, alpha and the centred advection); the modal temperature, divergence and vorticity '
-              'tendencies are invariant under named exactness hypotheses on the linear horizontal operators '
-              '(re-checked numerically on every explored grid); the cloud-moist class is refuted with a concrete witness')
+              'against sigma_dot, alpha and the centred advection; the np.unique branch is proved to skip an exactly-zero '
+              'term and to test "some entry differs"); the modal temperature, divergence and vorticity tendencies '
+              '(clipped explicit + implicit) of the dry, with-time and moist classes are invariant under named exactness '
+              'hypotheses on abstract linear horizontal operators (round trip, div/curl of the velocity, div/curl of '
+              'sec2.grad, laplacian of a constant, Leibniz rule for q.grad lnps; re-checked numerically on every explored '
+              'grid); the cloud-moist class with condensate and include_vertical_advection=False with non-uniform profiles '
+              'are refuted with concrete witnesses and their exact defect / closed form is proved')
 LEVEL_NOTE = ('theorems are about the Gallina model Model/PrimEq.v (+ Model/Implicit.v, Model/Sigma.v); horizontal '
               'transforms are abstract linear operators in the theorems and are not executed in the model; the model is '
               'tied to the code by differential correspondence on nodal columns of recorded to_modal arguments; '
@@ -171,6 +180,12 @@ def generate(ctx):
         if r < 2 or not quick:
             yield 'corr', {'cls': cls, 'grid': 'g5', 'K': K, 'b': bb, 'Tref': structured(K, kind), 'oro': 0, 'ntr': 0, 'va': 1,
                            'seed': int(rng.integers(1 << 30)), 'nodes': 4, 'sparse': r % 2}
+    # include_vertical_advection=False is invariant only between level-uniform profiles (C04_no_vertical_advection_*)
+    for r, (cls, K) in enumerate([('dry', 3), ('moist', 2)] if quick else [(c, K) for c in ('dry', 'time', 'moist') for K in (1, 3, 5)]):
+        ctx.count('oracle:no-vertical-advection-uniform')
+        t1 = profile(K, True)
+        yield 'oracle', {'cls': cls, 'grid': 'g5', 'K': K, 'b': levels(K, r), 'T1': t1, 'T2': [t1[0] + 7.5 + r] * K,
+                         'oro': r % 2, 'ntr': r % 2, 'va': 0, 'seed': int(rng.integers(1 << 30)), 'lmax': 9, 'amp': 1.0}
     yield 'cloud_nonzero', dict(CLOUD_ARGS)
 
 
